@@ -570,6 +570,14 @@ func canonBody(body string) string {
 			w[1] = n
 		}
 	}
+	// address spellings of a raw file or an old device: `A 255.255.255.255` is `host A`, `0.0.0.0 0.0.0.0` is `any4`
+	for i := 2; i+1 < len(w); i++ {
+		if w[i+1] == "255.255.255.255" && strings.Count(w[i], ".") == 3 {
+			w[i], w[i+1] = "host", w[i]
+		} else if w[i] == "0.0.0.0" && w[i+1] == "0.0.0.0" {
+			w = append(w[:i], append([]string{"any4"}, w[i+2:]...)...)
+		}
+	}
 	// `log LEVEL`: level as number; 6 (informational) is the default and is not shown
 	for i := 2; i < len(w); i++ {
 		if w[i] == "log" && i+1 < len(w) {
@@ -595,6 +603,13 @@ func canonBody(body string) string {
 		if w[i] == "eq" {
 			if n, ok := portNames[w[i+1]]; ok {
 				w[i+1] = n
+			}
+		}
+		if w[i] == "range" && i+2 < len(w) {
+			for j := i + 1; j <= i+2; j++ {
+				if n, ok := portNames[w[j]]; ok {
+					w[j] = n
+				}
 			}
 		}
 	}
